@@ -26,5 +26,7 @@ def run(ctx, rep):
     from props import gen
     gen.rules_c05(ctx, rep)
     rep.analysed['configs'] = cfgs + ['logos-forbid']
+    if ctx.tier == 'thorough':
+        rt.rule_witnesses(rep, ctx)
     rep.trusted += ['rustc nightly MIR construction', 'engines/mirfacts', 'std: ptr::add, get_unchecked contracts']
     rep.assumptions += ['positions passed to LexerInternal::end by generated code are within the source (decided on generated code by G7c)']
